@@ -583,6 +583,8 @@ def fmt_request(rx, spec):
     for m in rx.molecules():
         s, nc, rad = sig_of(m, spec)
         ok = ok and (s.count('.') + 1 == nc)
+        # hypotheses WrittenOK / no whitespace of the read-back theorems: components non-empty, no '>' and no blank inside
+        ok = ok and bool(s) and all(s.split('.')) and '>' not in s and not any(c.isspace() for c in s)
         if not spec or spec == '!c':
             # hypothesis `hn` of rxn_read_write_radicals: the parser yields the atoms of the written string in the written order
             els = piece_atoms(s)
@@ -1147,10 +1149,17 @@ def radicals_and_mapping(ctx, rng, cases, s_rad, s_map, programs, written):
             ctx.dist('readrad:unparsable-piece')
             return
         real, cap = read_real_hooked(text, **kw)
-        if not kw:
-            req = 'readrad %d %s %d %s' % (len(text), cps(text), len(tbl), ' '.join('%d %s %d' % (len(x), cps(x), n) for x, n in tbl))
-            s_rad.add(norm(req), real, dict(meta, text=text))
+        if not kw or kw == {'ignore': False}:
+            strict = bool(kw)
+            if strict and 'rec' in cap:
+                # the model ends where postprocess_parsed_reaction is called: later stages of the strict mode (MappingError,
+                # valence errors of create_reaction) are not its subject; the emptiness check of ReactionContainer is
+                real = repr(cap['rec']) if any(cap['rec']) else 'err ValueError'
+            req = 'readrad %d %d %s %d %s' % (int(not strict), len(text), cps(text), len(tbl),
+                                              ' '.join('%d %s %d' % (len(x), cps(x), n) for x, n in tbl))
+            s_rad.add(norm(req), real, dict(meta, text=text, strict=strict))
             ctx.dist('readrad:outcome:' + (real.split()[0] if real.startswith(('err', 'mol')) else 'roles'))
+            ctx.dist('readrad:ignore=%s' % (not strict))
         if 'maps_in' in cap:
             mi, k = cap['maps_in'], cap['kw']
             s_map.add(mapfix_request(k.get('remap', False), k.get('ignore', True), mi['reactants'], mi['products'], mi['reagents']),
@@ -1162,6 +1171,8 @@ def radicals_and_mapping(ctx, rng, cases, s_rad, s_map, programs, written):
     for i in range(n_rad):
         text, f1, f2, mapped = gen_rad_text(rng)
         add_text(text, {'flavour': f'{f1}/{f2}'})
+        if i % 4 == 0:
+            add_text(text, {'flavour': f'{f1}/{f2}/strict'}, ignore=False)
         ctx.dist('readrad:radicals=' + f2)
         ctx.dist('readrad:mapped=%d' % mapped)
         if i < 2:
